@@ -308,6 +308,9 @@ def walker_rule(repo: Repo, rep: Report, rid: str) -> None:
 
 
 def run(repo: Repo, rep: Report, tier: str) -> None:
+    from .compiled import compiled_fold_rule
+
+    compiled_fold_rule(repo, rep, "C01.R19", tier)
     slot_rule(repo, rep, "C01.R1")
     codec_key_rule(repo, rep, "C01.R2")
     encoder_rule(repo, rep, "C01.R3")
